@@ -102,6 +102,55 @@ def genuine_payload(ctx, key, nonce):
     return pkt[8:]
 
 
+def repeat_scenario(ctx, rng):
+    """the SAME credentials, several genuine handshakes in one process: re-authentication on the same object, a second
+    object for the same unit, automatic re-authentication after a peer close — each with a fresh nonce of the device.
+    Every one of them must agree on the session key (the following data exchange is accepted by the device)."""
+    token, key = rb(rng, 64), rb(rng, 32)
+    dev = simdev.SimDevice(version=3, device_id=99, token=token, key=key)
+    res = {"steps": []}
+
+    async def scenario(loop, net):
+        net.add_tcp("1.2.3.4", 6444, dev)
+
+        async def step(name, coro_fn):
+            n0 = len(dev.log)
+            try:
+                await coro_fn()
+                out = "ok"
+            except Exception as e:  # noqa
+                out = lanimpl.canon_exc(e)
+            data = [e for e in dev.log[n0:] if e["kind"] == "data"]
+            res["steps"].append((name, out, all(e.get("tag_ok") for e in data), len(data)))
+        ac = AC(ip="1.2.3.4", port=6444, device_id=99)
+        frame = GetStateCommand().tobytes()
+        await step("authenticate", lambda: ac.authenticate(token, key))
+        await step("send", lambda: lan_of(ac).send(frame))
+        await step("authenticate-again", lambda: ac.authenticate(token, key))
+        await step("send", lambda: lan_of(ac).send(frame))
+        ac2 = AC(ip="1.2.3.4", port=6444, device_id=99)
+        await step("second-object-authenticate", lambda: ac2.authenticate(token.hex(), key.hex()))
+        await step("second-object-send", lambda: lan_of(ac2).send(frame))
+        for cid in list(dev.conns):
+            tr = dev.conns[cid].get("transport")
+            if tr is not None:
+                tr.peer_close(0.01)
+        import asyncio
+        await asyncio.sleep(0.1)
+        await step("send-after-peer-close", lambda: lan_of(ac).send(frame))
+    try:
+        vloop.run(scenario)
+    except Exception as e:  # noqa
+        res["steps"].append(("outer", lanimpl.canon_exc(e), False, 0))
+    bad = [s_ for s_ in res["steps"] if s_[1] != "ok" or not s_[2] or (s_[0].endswith("send") or "send" in s_[0]) and s_[3] < 1]
+    inp = {"token": hx(token), "key": hx(key)}
+    if bad:
+        ctx.violate("repeat_same_key", inp, [list(b) for b in bad], "every step ok and accepted by the device",
+                    "a genuine handshake with credentials already used in this process did not lead to a working session: " + bad[0][0])
+    ctx.count("repeat_same_key")
+    ctx.case("repeat_same_key", key=hx(key), sample={"steps": [s_[0] + ":" + s_[1] for s_ in res["steps"]]})
+
+
 def run(ctx):
     rng = ctx.rng
     if not ctx.driver:
@@ -112,6 +161,8 @@ def run(ctx):
         for pre in (False, True):
             for _ in range(3 if not thorough else 30):
                 scenario_run(ctx, "genuine", "genuine", lambda d, k, n, c: None, hexform, pre)
+    for _ in range(4 if not thorough else 40):
+        repeat_scenario(ctx, rng)
     # every single-bit flip of the 64-byte reply payload
     for i in range(64):
         for b in range(8):
